@@ -382,7 +382,7 @@ Proof. intros H. apply forallb_forall. intros c Hc. apply in_seq in Hc. apply H.
 
 Lemma closure_okb_model rank h c :
   (forall a b, rank a = rank b -> a = b) -> wf_hist h ->
-  closure_okb h (map c_height (store_of rank h)) c (rev (closure_of rank h c)) = true.
+  closure_okb (ancestors h c) (map c_height (store_of rank h)) (rev (closure_of rank h c)) = true.
 Proof.
   intros Hinj Hwf.
   assert (Hoh : forall a, obs_height (map c_height (store_of rank h)) a = height rank h a).
@@ -408,22 +408,31 @@ Proof.
     cbn [fst snd]. rewrite Hoh, Nat.eqb_refl, andb_true_r. apply memb_In. apply ancestors_spec; assumption.
 Qed.
 
+Lemma combine_map_elt {A B} (g : A -> B) l pr :
+  In pr (combine l (map g l)) -> In (fst pr) l /\ snd pr = g (fst pr).
+Proof.
+  induction l as [|a r IH]; cbn [map combine In]; [intros []|].
+  intros [<-|Hin]; [split; [left; reflexivity | reflexivity]|].
+  destruct (IH Hin) as [H1 H2]. split; [right; exact H1 | exact H2].
+Qed.
+
 Theorem oracle_accepts_model i :
   wf_histb (hist_of i) = true ->
-  rank_okb (length (hist_of i)) (map N.to_nat (snd i)) = true ->
+  rank_okb (length (hist_of i)) (ranks_of i) = true ->
   oracle i (model_obs i) = true.
 Proof.
   intros Hwf Hrk. apply wf_histb_spec in Hwf.
   pose proof (rank_of_inj _ _ Hrk) as Hinj.
-  set (rank := rank_of (map N.to_nat (snd i))) in *.
+  set (rank := rank_of (ranks_of i)) in *.
   set (h := hist_of i) in *.
   unfold oracle, model_obs. cbn [o_heights o_closures o_stable].
   fold h. fold rank.
   assert (Eh : map N.to_nat (map (fun c => N.of_nat (c_height c)) (store_of rank h)) = map c_height (store_of rank h)).
   { rewrite map_map. apply map_ext. intros c. apply Nat2N.id. }
-  assert (Ec : map (map key_of_N) (map (fun c => map key_to_N (rev (c_closure c))) (store_of rank h))
-               = map (fun c => rev (c_closure c)) (store_of rank h)).
-  { rewrite map_map. apply map_ext. intros c. rewrite map_map. rewrite <- (map_id (rev (c_closure c))) at 2.
+  assert (Ec : map (map key_of_N) (map (fun c => map key_to_N (rev (c_closure (get (store_of rank h) c)))) (sel_of i))
+               = map (fun c => rev (closure_of rank h c)) (sel_of i)).
+  { rewrite map_map. apply map_ext. intros c. rewrite map_map. unfold closure_of.
+    rewrite <- (map_id (rev (c_closure (get (store_of rank h) c)))) at 2.
     apply map_ext. intros k. apply key_of_to_N. }
   rewrite Eh, Ec.
   assert (Hlen : length (store_of rank h) = length h) by (unfold store_of; apply build_length).
@@ -435,11 +444,12 @@ Proof.
     + apply forallb_seq_intro. intros c Hc. apply Nat.eqb_eq. rewrite Hoh.
       rewrite (height_unfold rank h c Hwf Hc). f_equal. f_equal. apply map_ext. intros p. symmetry. apply Hoh.
   - unfold closures_okb. rewrite andb_true_iff. split.
-    + apply Nat.eqb_eq. rewrite map_length. exact Hlen.
-    + apply forallb_seq_intro. intros c Hc.
-      assert (En : nth c (map (fun c0 => rev (c_closure c0)) (store_of rank h)) [] = rev (closure_of rank h c)).
-      { unfold closure_of, get. apply (map_nth (fun c0 => rev (c_closure c0)) (store_of rank h) no_commit c). }
-      cbv beta. etransitivity; [|apply (closure_okb_model rank h c Hinj Hwf)]. f_equal. exact En.
+    + apply Nat.eqb_eq. apply map_length.
+    + apply forallb_forall. intros sc Hsc. cbv beta.
+      apply (combine_map_elt (fun c => rev (closure_of rank h c))) in Hsc. destruct Hsc as [_ Es].
+      destruct sc as [c cl]. cbn [fst snd] in *. subst cl.
+      change (nth c (anc_table h) []) with (ancestors h c).
+      apply closure_okb_model; assumption.
 Qed.
 
 (* non-vacuity: a criss-cross history with a 3-parent merge and a duplicate parent *)
